@@ -62,6 +62,12 @@ func VariantsCombined() []Variant {
 		{Name: "12-cid-resumed", Resumed: true, C: world.Cfg{CIDLen: 4}, S: world.Cfg{CIDLen: 4}},
 		{Name: "12-psk-mtu100", C: world.Cfg{MTU: 100, Cred: "psk", PSK: pskKey, Suites: []dtls.CipherSuiteID{dtls.TLS_PSK_WITH_AES_128_GCM_SHA256}},
 			S: world.Cfg{MTU: 100, Cred: "psk", PSK: pskKey, Suites: []dtls.CipherSuiteID{dtls.TLS_PSK_WITH_AES_128_GCM_SHA256}}},
+		// an MTU below the 12-byte Finished: the only DTLS 1.2 message sent protected is fragmented too (with a
+		// connection ID every fragment travels in its own tls12_cid record)
+		{Name: "12-psk-cid-mtu9", C: world.Cfg{MTU: 9, CIDLen: 4, Cred: "psk", PSK: pskKey, Suites: []dtls.CipherSuiteID{dtls.TLS_PSK_WITH_AES_128_GCM_SHA256}},
+			S: world.Cfg{MTU: 9, CIDLen: 4, Cred: "psk", PSK: pskKey, Suites: []dtls.CipherSuiteID{dtls.TLS_PSK_WITH_AES_128_GCM_SHA256}}},
+		{Name: "12-psk-mtu9", C: world.Cfg{MTU: 9, Cred: "psk", PSK: pskKey, Suites: []dtls.CipherSuiteID{dtls.TLS_PSK_WITH_AES_128_CCM_8}},
+			S: world.Cfg{MTU: 9, Cred: "psk", PSK: pskKey, Suites: []dtls.CipherSuiteID{dtls.TLS_PSK_WITH_AES_128_CCM_8}}},
 		// DTLS 1.3 with fragmented flights: partial ACKs and selective retransmission only exist here
 		{Name: "13-mtu200", V13: true, C: world.Cfg{MinV: 13, MaxV: 13, MTU: 200}, S: world.Cfg{MinV: 13, MaxV: 13, MTU: 200, SkipHelloVerify: true}},
 	}
